@@ -280,6 +280,29 @@ class TLSLikeSocket(ScriptedSocket):
         return self.send(data)
 
 
+class ReentrantHandler:
+    """An ERR_LOG handler that itself reads the next item from the same reader (an
+    application skipping what follows a bad frame).  Depth-limited."""
+
+    def __init__(self):
+        self.rd = None
+        self.depth = 0
+        self.taken = []
+
+    def bind(self, rd):
+        self.rd = rd
+
+    def __call__(self, err):
+        if self.rd is None or self.depth >= 3:
+            return None
+        self.depth += 1
+        try:
+            self.taken.append(self.rd.read())
+        finally:
+            self.depth -= 1
+        return None
+
+
 def protocol_errors():
     import pynmeagps.exceptions as nme
     import pyrtcm.exceptions as rte
@@ -444,6 +467,8 @@ def read_all(stream, opts, handler=None, resume=False, limit=None):
 
 def _read_all(stream, opts, handler=None, resume=False, limit=None):
     rd = mk_reader(stream, opts, handler)
+    if hasattr(handler, "bind"):
+        handler.bind(rd)
     items, excs = [], []
     steps = 0
     if limit is None and resume:
